@@ -50,9 +50,9 @@ Step(e) ==
     CASE e.ev = "Subst"      -> AddSubstance([name |-> e.name, comp |-> e.comp]) /\ UNCHANGED forms
       [] e.ev = "Rxn"        -> AddReaction(RxnOf(e)) /\ UNCHANGED forms
       [] e.ev = "Build"      -> Build /\ BuildOutcome(e) /\ BuildIsValueError(e) /\ BuildNamesKey(e) /\ UNCHANGED forms
-      [] e.ev = "BVectors"   -> /\ stage = "built" /\ e.keys = KeySeq(subs) /\ e.B = BMatrix(subs)
+      [] e.ev = "BVectors"   -> /\ stage \in {"built", "dyn"} /\ e.keys = KeySeq(subs) /\ e.B = BMatrix(subs)
                                 /\ UNCHANGED <<vars, forms>>
-      [] e.ev = "NetStoich"  -> /\ stage = "built" /\ Len(e.N) = Len(rxns) /\ ObservedNetBalanced(e.N)
+      [] e.ev = "NetStoich"  -> /\ stage \in {"built", "dyn"} /\ Len(e.N) = Len(rxns) /\ ObservedNetBalanced(e.N)
                                 /\ UNCHANGED <<vars, forms>>
       [] e.ev = "RatesAt"    -> /\ SetState(e.c) /\ Len(e.f) = NS /\ IsQZeroVec(BTimes(subs, e.f))
                                 /\ UNCHANGED forms
@@ -102,9 +102,9 @@ Clause ==
               ELSE IF e.exc # "ValueError" THEN "not-a-ValueError"
               ELSE "named-key-not-violated"
         [] e.ev = "BVectors" ->
-              IF stage # "built" THEN "step:BVectors"
+              IF ~(stage \in {"built", "dyn"}) THEN "step:BVectors"
               ELSE IF e.keys # KeySeq(subs) THEN "keys" ELSE "B"
-        [] e.ev = "NetStoich" -> IF stage # "built" \/ Len(e.N) # Len(rxns) THEN "step:NetStoich" ELSE "B.N^T"
+        [] e.ev = "NetStoich" -> IF ~(stage \in {"built", "dyn"}) \/ Len(e.N) # Len(rxns) THEN "step:NetStoich" ELSE "B.N^T"
         [] e.ev = "RatesAt" ->
               IF ~(stage \in {"built", "dyn"}) \/ Len(e.c) # NS \/ Len(e.f) # NS THEN "step:RatesAt"
               ELSE "B.rates"
